@@ -28,7 +28,9 @@ RULE = (
     "depth 500 / 5000 (thorough 10^5)), two-position mutations sampled, plus ~40 raw texts (truncated JSON, bare "
     "scalars, NaN, lone surrogate escapes, huge numbers, wrong arity). Non-trivial = a batch containing at least one "
     "frame that is not a well-formed command, after which a probe obligation was checked. Distinct = distinct "
-    "(backend, config, frame text hash)."
+    "(backend, config, frame text hash). Plus a hostile PEER rather than a hostile frame: a connection with 8-12 live "
+    "subscriptions that stops reading (its send blocks) while 1000-3000 frames become due for it; publishers, another "
+    "subscriber, a later connection and the task table are observed."
 )
 ASSUMPTIONS = [
     "closing the offending connection (ws_close + clean handler exit) is an allowed reaction; raising out of the handler is not",
@@ -36,7 +38,7 @@ ASSUMPTIONS = [
     "LMDB backend over /verif/shim; SQL = SQLite",
 ]
 MIN_NONTRIVIAL = {"quick": 1500, "thorough": 15000}
-REQUIRED_COUNTERS = ["probe.same_connection", "probe.neighbour_push", "probe.neighbour_req", "leak_checks", "frames"]
+REQUIRED_COUNTERS = ["probe.same_connection", "probe.neighbour_push", "probe.neighbour_req", "leak_checks", "frames", "stalled.publishes", "stalled.late_connections"]
 SHARD_TIMEOUT = {"quick": 600, "thorough": 3200}
 
 
@@ -339,6 +341,106 @@ async def run_case(backend, cfgname, frames, counters, seed):
     return viols, nontrivial, samples
 
 
+async def run_stalled_reader(backend, counters, seed, nsubs=10, nevents=130):
+    """
+    One connection stops READING (its ws_send blocks, as a websocket send does once the peer's TCP window is
+    full) while more than a thousand frames become due for it.  Nobody else may notice: publishers keep getting
+    their OK, other subscribers their pushes, new connections are served, and when the stalled peer goes away
+    its tasks end.
+    """
+    rig = R.Rig(backend=backend, config={"analysis_delay": 0, "subscription_limit": nsubs + 2})
+    await rig.start()
+    viols, nontrivial = [], []
+    st = counters.setdefault("stalled", {})
+    rp = {"mode": "stalled", "backend": backend, "seed": seed}
+    try:
+        key = ref.key_from_seed("c19-stall")
+        slow = rig.connect("slow")
+        slow.send_gate = asyncio.Event()
+        other = rig.connect("other")
+        await other.cmd(["REQ", "o", {"kinds": [1], "since": gen.T0}])
+        for i in range(nsubs):
+            await slow.cmd(["REQ", "s%d" % i, {"kinds": [1], "since": gen.T0}])
+        pub = rig.connect("pub")
+        wedged = None
+        for i in range(nevents):
+            ev = ref.make_event(key, kind=1, created_at=gen.T0 + 10 + i, content="stall %d %d" % (seed, i))
+            n0 = rig.rec.n
+            pub.feed(["EVENT", ev])
+            try:
+                await pub.processed(timeout=15)
+            except R.Inconclusive:
+                wedged = i
+                break
+            oks = R.ok_frames(pub, n0)
+            st["publishes"] = st.get("publishes", 0) + 1
+            if not oks or oks[-1][1][2] is not True:
+                viols.append({"key": "stalled-reader/other-connection-refused", "msg": "[%s] event %d of a publisher was answered %s while another connection was not reading" % (backend, i, oks[-1][1][2:] if oks else None), "replay": rp})
+                break
+        due = nsubs * (wedged if wedged is not None else nevents)
+        st["frames_due_for_stalled_peer"] = st.get("frames_due_for_stalled_peer", 0) + due
+        nontrivial.append(h([backend, "stalled", nsubs, nevents, seed]))
+        if wedged is not None:
+            viols.append({"key": "stalled-reader/publisher-wedged", "msg": "[%s] with one connection not reading (%d frames due for it) the publisher got no answer to its event %d within 15 s"
+                          % (backend, due, wedged), "replay": rp})
+        else:
+            # the other subscriber saw everything (LMDB: pushes follow the writer)
+            t0 = asyncio.get_running_loop().time()
+            want = nevents
+            while asyncio.get_running_loop().time() - t0 < 20:
+                got = sum(1 for _, f in other.parsed_frames() if isinstance(f, list) and len(f) > 2 and f[0] == "EVENT" and f[1] == "o")
+                if got >= want:
+                    break
+                await asyncio.sleep(0.02)
+            if got < want:
+                viols.append({"key": "stalled-reader/neighbour-lost-push", "msg": "[%s] another subscriber received %d of %d live events while one connection was not reading" % (backend, got, want), "replay": rp})
+        # the stalled peer goes away
+        slow.disconnect()
+        try:
+            await asyncio.wait_for(asyncio.shield(slow.task), 15)
+        except Exception:
+            viols.append({"key": "stalled-reader/handler-never-ends", "msg": "[%s] the handler of the stalled connection did not end within 15 s of its disconnect" % backend, "replay": rp})
+        late = rig.connect("late")
+        ev = ref.make_event(key, kind=1, created_at=gen.T0 + 5000, content="after %d" % seed)
+        n0 = rig.rec.n
+        late.feed(["EVENT", ev])
+        late.feed(["REQ", "l", {"ids": [ev["id"]]}])
+        try:
+            await late.processed(timeout=15)
+            t0 = asyncio.get_running_loop().time()
+            while asyncio.get_running_loop().time() - t0 < 15:
+                fr = [f for _, f in late.parsed_frames(n0) if isinstance(f, list)]
+                if any(f[0] == "EOSE" for f in fr):
+                    break
+                await asyncio.sleep(0.02)
+            oks = R.ok_frames(late, n0)
+            st["late_connections"] = st.get("late_connections", 0) + 1
+            if not oks or oks[-1][1][2] is not True or not any(f[0] == "EOSE" for f in fr):
+                viols.append({"key": "stalled-reader/relay-wedged-afterwards", "msg": "[%s] after the stalled connection ended a new connection got OK=%s and %s for EVENT+REQ"
+                              % (backend, oks[-1][1][2:] if oks else None, [f[0] for f in fr][:4]), "replay": rp})
+        except R.Inconclusive:
+            viols.append({"key": "stalled-reader/relay-wedged-afterwards", "msg": "[%s] after the stalled connection ended a new connection was not served within 15 s" % backend, "replay": rp})
+        for c in list(rig.conns.values()):
+            if not c.exited:
+                c.disconnect()
+        for c in list(rig.conns.values()):
+            if c.task:
+                try:
+                    await asyncio.wait_for(asyncio.shield(c.task), 10)
+                except Exception:
+                    pass
+        await asyncio.sleep(0.05)
+        busy = rig.busy_tasks()
+        stray = [t for t in asyncio.all_tasks() if not t.done() and (t.get_name().startswith("conn-"))]
+        pending_notify = [t for t in getattr(rig.storage, "_notify_sub_tasks", []) if not t.done()]
+        if busy or stray or pending_notify:
+            viols.append({"key": "stalled-reader/task-leak", "msg": "[%s] tasks still alive after every connection ended: %s %s pending notify tasks: %d"
+                          % (backend, busy[:3], [t.get_name() for t in stray][:3], len(pending_notify)), "replay": rp})
+    finally:
+        await rig.close()
+    return viols, nontrivial
+
+
 def plan(tier, seed):
     out = []
     count = 450 if tier == "quick" else 4000
@@ -346,12 +448,27 @@ def plan(tier, seed):
         for cfg in ("plain", "rate-limited", "auth"):
             for i in range(2 if tier == "quick" else 5):
                 out.append({"backend": backend, "cfg": cfg, "case_seed": seed * 7919 + i, "count": count})
+        out.append({"backend": backend, "cfg": "stalled-reader", "mode": "stalled", "case_seed": seed * 7919, "n": 1 if tier == "quick" else 4})
     return out
 
 
 def run_shard(spec):
     r = random.Random(spec["case_seed"])
     counters = {}
+    if spec.get("mode") == "stalled":
+        viols, nontrivial = [], []
+        for j in range(spec["n"]):
+            v, nt = R.run(run_stalled_reader, spec["backend"], counters, spec["case_seed"] + j, nsubs=r.choice([8, 10, 12]), nevents=r.choice([130, 150, 260]))
+            viols.extend(v)
+            nontrivial.extend(nt)
+        seen, out = {}, []
+        for v in viols:
+            seen[v["key"]] = seen.get(v["key"], 0) + 1
+            if seen[v["key"]] <= 1:
+                out.append(v)
+        counters["violations_by_key"] = seen
+        return {"evaluations": counters.get("stalled", {}).get("publishes", 0), "nontrivial": sorted(set(nontrivial)), "counters": counters,
+                "coverage": {"backends": {spec["backend"]: 1}, "configs": {"stalled-reader": 1}}, "violations": out, "samples": [], "inconclusive": []}
     key = ref.key_from_seed("c19")
     known = ref.make_event(key, kind=1, created_at=gen.T0 - 5, content="known")
     tier = spec.get("tier", "quick")
@@ -378,6 +495,9 @@ def run_shard(spec):
 
 def replay(rp, spec):
     counters = {}
+    if rp.get("mode") == "stalled":
+        v, nt = R.run(run_stalled_reader, rp["backend"], counters, rp["seed"])
+        return {"evaluations": 1, "nontrivial": nt, "counters": counters, "violations": v, "samples": [], "inconclusive": []}
     frames = list(zip(rp.get("labels", []), rp.get("frames", [])))
     v, nt, sm = R.run(run_case, rp["backend"], rp["cfg"], frames, counters, 0)
     return {"evaluations": len(frames), "nontrivial": nt, "counters": counters, "violations": v, "samples": [], "inconclusive": []}
